@@ -5,6 +5,10 @@
 //                                                                      performed if the last call returned BLOCK_NOT_READY)
 // output:  <id> <trace op1>|<trace op2>|... # <reference traces> # leak=<0|1>
 #include "scan_common.h"
+#include <signal.h>
+// a case that does not finish is reported with its id instead of stalling the whole run
+static char vf_current[128];
+static void vf_alarm(int sig) { (void) sig; fprintf(stderr, "CASE-HANGS %s (no result after 300 s)\n", vf_current); _exit(97); }
 
 #define MAXOPS 24
 
@@ -150,6 +154,8 @@ int main(int argc, char** argv)
   {
     int n = split(line, toks, 64);
     if (n < 1) continue;
+    snprintf(vf_current, sizeof vf_current, "%s", toks[0]);
+    signal(SIGALRM, vf_alarm); alarm(300);
     const char* rs = field(toks, n, "rs"); const char* inf = field(toks, n, "in"); const char* opf = field(toks, n, "ops");
     if (!rs || !inf || !opf) DIE("missing field in case %s", toks[0]);
     int flags = atoi(field(toks, n, "fl") ? field(toks, n, "fl") : "0");
